@@ -171,6 +171,26 @@ CLAIMED = {
         technique="Coq invariant proof over an executable LTS (per-waiter boolean invariant + frame lemma) + exhaustive/random trace correspondence + ASan",
         note="Trusted: as C01. Partial: OneShotEvent::Call/Reset, multi-future or NeedAdd=false Attach/Consume and counter wrap-around are outside "
              "the model; mutex/condvar internals are C18's, memory orders C04's."),
+    "C18": dict(
+        text="Machine-checked invariants of five transition systems transcribed from the FIBER backend (Mutex/TimedMutex/"
+             "ConditionVariable/sleep, RecursiveMutex/RecursiveTimedMutex, SharedMutex/SharedTimedMutex, Thread join/detach, "
+             "thread-local pointers; one event = an operation from its call or wake-up to its next Wait; any number of fibers, "
+             "every notify pick, every timeout and virtual-time advance) prove for every schedule: never incompatible holders and the "
+             "concrete flags/owner/counts equal what the clients believe; a reported acquisition holds in the requested mode; a failed "
+             "try had an incompatible holder, failed timed locks / timed-out waits / sleeps end at or after their deadline; in a "
+             "quiescent state nobody is parked on a lock no client holds; notify_one/notify_all wake fibers that were blocked in wait; "
+             "no end() dereference in the sleep map; join returns after the thread function finished and a joiner is never lost; "
+             "thread-local reads depend only on the fiber's own stores and distinct variables have distinct slots. Ten places of the "
+             "sources are variant flags read from the tree on every run (the theorems are instantiated at that variant) and each has "
+             "a vm_compute witness that the pinned text refutes its clause; eight genuine defects were found this way and fixed "
+             "(c18-1..8). Tied to the code by replaying every explored trace of real yaclib_std objects (exhaustive DFS for 2 fibers, "
+             "3 in the thorough tier, seeded random for 3-4) through the machines inside Coq with equal results, times, wake-ups.",
+        design="DESIGN.md §5 C18, §12",
+        technique="Coq invariant proofs over executable LTSs with source-derived variant flags + exhaustive trace correspondence (vm_compute prefix-tree replay)",
+        note="Trusted: Coq kernel + vm_compute; checks/c18.py variant_of_source (text patterns) and the syntactic trace mapping; "
+             "FiberSyncObs decoders; harness oracle and its marker hooks; FIBER scheduler below the modelled operations. Partial: "
+             "run-queue order, contexts, condition_variable_any, the THREAD wrappers are not modelled; a reader can stay parked "
+             "behind readers (Example c18_shared_reader_behind_readers), which the property text does not forbid."),
     "C19": dict(
         text="For every kind of T (signed/unsigned 8-64-bit, bool, pointer with any element size, floating as shape, atomic_flag), every "
              "operation std::atomic has, both cv-overloads, all representable values and every single-threaded operation sequence incl. "
